@@ -661,6 +661,25 @@ func (p *sqlParser) primary() Expr {
 		case "false":
 			return &ELit{kind: "int", i: 0}
 		}
+		if strings.ToLower(t.s) == "case" {
+			// searched CASE only
+			f := &EFunc{name: "case"}
+			for p.acceptKw("WHEN") {
+				f.args = append(f.args, p.expr())
+				p.expectKw("THEN")
+				f.args = append(f.args, p.expr())
+			}
+			if len(f.args) == 0 {
+				panic(fmt.Errorf("CASE with an operand is not supported"))
+			}
+			if p.acceptKw("ELSE") {
+				f.args = append(f.args, p.expr())
+			} else {
+				f.args = append(f.args, &ELit{kind: "null"})
+			}
+			p.expectKw("END")
+			return f
+		}
 		if p.acceptOp("(") {
 			f := &EFunc{name: strings.ToLower(t.s)}
 			if !p.isOp(")") {
